@@ -69,7 +69,7 @@ func (p *Prog) rwClosures(f *ssa.Function) (r, w *ssa.Function) {
 			rs := p.calleesOfValue(args[0], p.Origins())
 			ws := p.calleesOfValue(args[1], p.Origins())
 			if len(rs) == 1 && len(ws) == 1 {
-				return rs[0], ws[0]
+				return p.unwrapThin(rs[0]), p.unwrapThin(ws[0])
 			}
 		}
 	}
@@ -271,7 +271,14 @@ func ruleOneIdPerCall(c *Ctx, rule string) {
 	rd, _ := p.rwClosures(g)
 	okCh := false
 	for _, u := range p.chanUsesIn(rd) {
-		if u.kind == "recv" && p.sameValue(u.ch, greg.Common().Args[2]) {
+		if u.kind != "recv" {
+			continue
+		}
+		if p.sameValue(u.ch, greg.Common().Args[2]) {
+			okCh = true
+		} else if a, b := p.chanClass(u.ch), p.chanClass(greg.Common().Args[2]); len(a) == 1 && len(b) == 1 && classesIntersect(a, b) {
+			// the reader's code lives in a function that takes the channel as an argument: both denote the one
+			// channel made in this invocation
 			okCh = true
 		}
 	}
@@ -724,4 +731,101 @@ func (p *Prog) reachesWithout(b, avoid *ssa.BasicBlock) bool {
 		st = append(st, x.Succs...)
 	}
 	return false
+}
+
+// unwrapThin: a function that only forwards to one in-scope function (a bound-method wrapper, or a closure /
+// function whose single block makes one call and returns exactly its results) stands for that function: the
+// code playing the role lives there.
+func (p *Prog) unwrapThin(f *ssa.Function) *ssa.Function {
+	for depth := 0; depth < 4; depth++ {
+		g := p.thinTarget(f)
+		if g == nil {
+			return f
+		}
+		f = g
+	}
+	return f
+}
+
+func (p *Prog) thinTarget(f *ssa.Function) *ssa.Function {
+	if f == nil || len(f.Blocks) != 1 {
+		return nil
+	}
+	var call *ssa.Call
+	for _, i := range f.Blocks[0].Instrs {
+		switch x := i.(type) {
+		case *ssa.Call:
+			if call != nil {
+				return nil
+			}
+			call = x
+		case *ssa.Store, *ssa.Send, *ssa.Go, *ssa.Defer, *ssa.MapUpdate, *ssa.Select, *ssa.Panic, *ssa.RunDefers, *ssa.MakeClosure:
+			return nil
+		case *ssa.Return:
+			if call == nil {
+				return nil
+			}
+			for _, r := range x.Results {
+				switch y := r.(type) {
+				case *ssa.Extract:
+					if y.Tuple != ssa.Value(call) {
+						return nil
+					}
+				case *ssa.Call:
+					if y != call {
+						return nil
+					}
+				default:
+					return nil
+				}
+			}
+			if call.Call.Signature().Results().Len() != len(x.Results) {
+				return nil
+			}
+		}
+	}
+	if call == nil || call.Call.IsInvoke() {
+		return nil
+	}
+	g := call.Call.StaticCallee()
+	if g == nil || !p.inScope[g] {
+		return nil
+	}
+	return g
+}
+
+// roleNames: a top-level function that is only ever reached through the reader / writer slot of one
+// NewFnReadWriter call is named by that role (X$reader / X$writer), like the closure it replaces.
+func (p *Prog) roleName(f *ssa.Function) string {
+	if p.roleMemo == nil {
+		p.roleMemo = map[*ssa.Function]string{}
+		for _, x := range p.Funcs {
+			for _, ci := range p.callsTo(x, "int.NewFnReadWriter", false) {
+				args := ci.Common().Args
+				if len(args) != 2 {
+					continue
+				}
+				for k, role := range []string{"$reader", "$writer"} {
+					raw := p.calleesOfValue(args[k], p.Origins())
+					if len(raw) != 1 {
+						continue
+					}
+					eff := p.unwrapThin(raw[0])
+					if eff == raw[0] || eff.Parent() != nil {
+						continue
+					}
+					only := true
+					for _, cs := range p.Callers(eff) {
+						if p.unwrapThin(cs.caller) != eff {
+							only = false
+						}
+					}
+					if only {
+						p.roleMemo[eff] = p.fnKey(x) + role
+					}
+				}
+			}
+		}
+	}
+	return p.roleMemo[f]
 }
